@@ -155,6 +155,48 @@ fn dispatch(cmd: &str, a: &[&str]) -> Result<Vec<String>, String> {
                 Err(e) => Err(e)
             }
         }
+        "process_seq" => {
+            // size, then request bytes...: every request is handled by Server::process on this same thread, in order
+            let size: i64 = a[0].parse().unwrap();
+            let mut out = vec![];
+            for r in &a[1..] {
+                let mut stream = MockStream { input: unhex(r), pos: 0, output: vec![], writes: vec![], flushes: 0, write_script: vec![], read_err: false, flush_err: false };
+                let conn = crate::server::ConnectionInfo {
+                    client: crate::server::Address { ip: "127.0.0.1".to_string(), port: 50000 },
+                    server: crate::server::Address { ip: "127.0.0.1".to_string(), port: 7878 },
+                    request_size: size,
+                };
+                let _ = crate::server::Server::process(&mut stream, conn, crate::app::App {});
+                out.push(hex(&stream.output));
+            }
+            Ok(out)
+        }
+        "accept_loop" => {
+            // Server::run on a real loopback listener whose accept() fails once with EMFILE (descriptor limit lowered while a
+            // connection is pending).  Reply: "returned" if Server::run came back (the accept loop ended), "running" otherwise.
+            #[repr(C)] struct RLimit { cur: u64, max: u64 }
+            extern "C" { fn setrlimit(resource: i32, rlim: *const RLimit) -> i32; fn getrlimit(resource: i32, rlim: *mut RLimit) -> i32; }
+            use std::sync::atomic::{AtomicBool, Ordering};
+            use std::sync::Arc;
+            let listener = std::net::TcpListener::bind("127.0.0.1:0").map_err(|e| e.to_string())?;
+            let addr = listener.local_addr().unwrap();
+            let pool = crate::thread_pool::ThreadPool::new(1);
+            let _client = std::net::TcpStream::connect(addr).map_err(|e| e.to_string())?;
+            let mut old = RLimit { cur: 0, max: 0 };
+            unsafe { getrlimit(7, &mut old); }
+            let low = RLimit { cur: 0, max: old.max };
+            unsafe { setrlimit(7, &low); }
+            let returned = Arc::new(AtomicBool::new(false));
+            let r2 = returned.clone();
+            std::thread::spawn(move || {
+                crate::server::Server::run(listener, pool, crate::app::App {});
+                r2.store(true, Ordering::SeqCst);
+            });
+            std::thread::sleep(std::time::Duration::from_millis(700));
+            unsafe { setrlimit(7, &old); }
+            std::thread::sleep(std::time::Duration::from_millis(300));
+            Ok(vec![hex(if returned.load(Ordering::SeqCst) { b"returned" } else { b"running" })])
+        }
         "range_parse" => {
             // path, file length (decimal), Range header value -> per part: start end size body
             let len: u64 = a[1].parse().unwrap();
